@@ -574,6 +574,13 @@ LIM_QUERIES = [
     ("UNWIND range(1, 8) AS a UNWIND range(1, 8) AS b WITH DISTINCT a, b RETURN count(*) AS c, sum(a) AS s", {}),
     ("UNWIND range(1, 8) AS a UNWIND range(1, 8) AS b RETURN a, b ORDER BY b, a", {}),
     ("UNWIND range(1, 8) AS a UNWIND range(1, 8) AS b RETURN a, collect(b) AS bs", {}),
+    # SKIP / LIMIT tails: rows (and an error among them) discarded by the slice must not turn a failing run into a short answer
+    ("UNWIND range(1, 50) AS x RETURN x SKIP 10", {}),
+    ("UNWIND range(1, 50) AS x RETURN x SKIP 45", {}),
+    ("UNWIND range(1, 60) AS x RETURN x SKIP 20 LIMIT 10", {}),
+    ("UNWIND range(1, 40) AS x WITH x SKIP 12 RETURN count(x) AS c, sum(x) AS s", {}),
+    ("UNWIND range(1, 8) AS a UNWIND range(1, 8) AS b RETURN a, b ORDER BY a, b SKIP 30", {}),
+    ("MATCH (a:N), (b:N) RETURN a.v AS x, b.v AS y SKIP 7", {}),
 ]
 
 
@@ -592,6 +599,7 @@ def limit_sessions(tier, seed):
                              "soft_timeout_ms": rng.choice([0, 5000, 5000, 5000])})
             opts.append({"soft_timeout_ms": 1})
             opts.append({"max_collection_items": rng.choice([10, 20, 30])})
+            opts.append({"max_intermediate_rows": 5})
             p = dict(params)
             if rep and "n" in p:
                 p["n"] = max(1, int(p["n"] * rng.choice([0.1, 0.5, 1, 2])))
@@ -978,6 +986,14 @@ def capi_sessions(tier, seed):
         [S(stmt(parts=[hub()], updates=[u_set_label("h", "Extra")])), S(stmt(parts=[hub()], updates=[u_set("h", "v", 1)])),
          S(stmt(parts=[hub()], updates=[u_create(chain([npat("h"), npat("z", ["New"])], [("", "L", "out")]))]))],
         [S(stmt(parts=[hub()], updates=[u_set("h", "v", None)])), S(stmt(parts=[hub()], updates=[u_set("h", "v", "again")]))],
+    ]
+    # a node created WITHOUT a label earlier in the transaction, met again by an unlabelled full scan
+    anyn = lambda: m_match(chain([npat("n")], []))
+    scripts24 += [
+        [S(stmt(updates=[u_create(chain([npat("x", [], {"k": 1})], []))])), S(stmt(parts=[anyn()], updates=[u_set("n", "seen", True)]))],
+        [S(stmt(updates=[u_create(chain([npat("x", [], {"k": 1})], []))])), S(stmt(parts=[anyn()], updates=[u_set_label("n", "Seen")]))],
+        [S(stmt(updates=[u_create(chain([npat("x", [], {"k": 1}), npat("y", [])], [("", "R", "out")]))])),
+         S(stmt(parts=[anyn()], updates=[u_set("n", "seen", 1)])), S(stmt(parts=[anyn()], updates=[u_set("n", "again", 2)]))],
     ]
     c24 = []
     for i, sc in enumerate(scripts24):
